@@ -5,12 +5,12 @@ import (
 	"fmt"
 	"math/rand"
 	"os"
+	"runtime"
 	"sort"
 	"strconv"
 	"strings"
 	"sync"
 	"testing"
-	"testing/synctest"
 	"time"
 
 	"verifharness/kit"
@@ -95,6 +95,7 @@ func pick(r *rand.Rand, xs ...string) string { return xs[r.Intn(len(xs))] }
 // genChan draws the own script of a channel.
 func genChan(r *rand.Rand, sc *stormChan, n int) {
 	nreq := 0
+	live := false // a request was created since the last Close / Cleanup (CloseChannel without one waits for its context: F2)
 	own := func() string {
 		if nreq == 0 || r.Intn(6) == 0 {
 			return fmt.Sprintf("r%d", 1+r.Intn(4))
@@ -109,6 +110,7 @@ func genChan(r *rand.Rand, sc *stormChan, n int) {
 				continue
 			}
 			nreq++
+			live = true
 			if sc.out {
 				a.Op, a.C, a.CRet = "Open", sc.c, "gate"
 				if r.Intn(2) == 0 {
@@ -121,6 +123,7 @@ func genChan(r *rand.Rand, sc *stormChan, n int) {
 					a.Ext = "resp"
 				}
 				a.HRet, a.HMsg = pick(r, "nil", "nil", "pause", "err"), pick(r, "none", "resp")
+				live = a.HRet != "err"
 			}
 		case x < 7:
 			a.Op, a.C = "Pause", sc.c
@@ -128,12 +131,20 @@ func genChan(r *rand.Rand, sc *stormChan, n int) {
 			a.Op, a.C = "Resume", sc.c
 			a.M = int64([]int{0, 1001, 1002, 1003}[r.Intn(4)])
 		case x < 12:
+			if !live {
+				continue
+			}
+			live = false
 			a.Op, a.C, a.CRet = "Close", sc.c, "ok"
 		case x < 14:
+			live = false
 			a.Op, a.C = "Cleanup", sc.c
 		case x < 16:
 			a.Op, a.C = "UseStore", sc.c
 		case x < 18:
+			if sc.out {
+				continue // the requester is us
+			}
 			a.Op, a.P, a.R = "ReqCancelled", other(sc.c), own()
 		default:
 			if !sc.out {
@@ -250,7 +261,7 @@ func runStorm(name string, seed int64, nch, nown, nnoise, noiseLen int) stormObs
 					nreq++
 					rc.o.Ret = hookRet(w.gs.FireIncomingRequest(kit.Peer(a.P), ga.R, exts(a.Ext, a.Tid, true, "dt")))
 				case "Close":
-					ctx, cancel := context.WithTimeout(context.Background(), 10*time.Second)
+					ctx, cancel := context.WithTimeout(context.Background(), 300*time.Millisecond)
 					rc.o.Ret = kit.GstErrClass(w.tr.CloseChannel(ctx, a.C.Real()))
 					cancel()
 					if rc.o.Ret == "ctx" {
@@ -294,9 +305,16 @@ func runStorm(name string, seed int64, nch, nown, nnoise, noiseLen int) stormObs
 			}
 		}(k)
 	}
+	base := runtime.NumGoroutine()
 	close(start)
 	wg.Wait()
-	synctest.Wait()
+	// end every request that is still running and wait (bounded) for the adapter's own goroutines to finish reporting
+	for _, r := range w.gs.Live() {
+		w.gs.Finish(r, "none")
+	}
+	for t0 := time.Now(); runtime.NumGoroutine() > base-nch-nnoise && time.Since(t0) < 3*time.Second; {
+		time.Sleep(time.Millisecond)
+	}
 
 	so := stormObs{Case: name, Chans: []chanObs{}, Noise: []invObs{}, Bg: []kit.GstHCall{}}
 	hc, gc, kc := w.ev.Since(0), normGsc(w.gs.Since(0)), normHook(w.at.HooksSince(0))
@@ -392,7 +410,6 @@ func runStorm(name string, seed int64, nch, nown, nnoise, noiseLen int) stormObs
 	}
 	sort.Slice(so.Noise, func(a, b int) bool { return so.Noise[a].T0 < so.Noise[b].T0 })
 	w.teardown()
-	synctest.Wait()
 	return so
 }
 
@@ -410,10 +427,7 @@ func TestStorm(t *testing.T) {
 	of := createOut(t, out)
 	defer of.close()
 	for i := 0; i < n; i++ {
-		var so stormObs
-		synctest.Test(t, func(t *testing.T) {
-			so = runStorm(fmt.Sprintf("storm-%d", i), seed*1000003+int64(i), 4+i%3, 14, 3, 40)
-		})
-		of.put(t, so)
+		// real goroutines, real time (no synctest bubble: a goroutine waiting for a library mutex would stall virtual time)
+		of.put(t, runStorm(fmt.Sprintf("storm-%d", i), seed*1000003+int64(i), 4+i%3, 14, 3, 40))
 	}
 }
